@@ -30,8 +30,9 @@ def verdict (obs : String) : String :=
       if y != "=" then
         if h == "ERR" then "fail:accept:the HCL file is refused, the YAML file is accepted"
         else if y == "ERR" then "fail:accept:the YAML file is refused, the HCL file is accepted"
-        else "fail:cfg-diff:the two files decode to different AmmoConfig"
-      else if "DIFF".toList.isPrefixOf a.toList then "fail:ammo-diff:" ++ a
+        else "fail:cfg-diff:the two files decode to different AmmoConfig; first difference at " ++ (token obs "D").getD "?"
+      else if "DIFF".toList.isPrefixOf a.toList then
+        "fail:ammo-diff:the two providers deliver different ammo; " ++ a
       else "ok"
     | _, _, _ => "fail:driver:unreadable observation"
 
@@ -110,5 +111,15 @@ def documentedField (T : Tables) (d : DocField) : Bool :=
   | some f => f.kind == d.kind && (!d.optional || f.optional) && docKey f == d.yaml && eqFold f.yaml d.yaml
 
 def documented (T : Tables) : Bool := docFields.all (documentedField T)
+
+/-- the HCL functions of docs/eng/scenario/functions.md ("HCL functions"), each with the go-cty stdlib function of the
+linked description (`index` is documented by a link to Packer's `index(list, value)`; the registered go-cty
+`IndexFunc` is element access `index(collection, key)` — a documentation aside, the same for every description) -/
+def docFunctions : List (String × String) := [
+  ("coalesce", "CoalesceFunc"), ("coalescelist", "CoalesceListFunc"), ("compact", "CompactFunc"),
+  ("concat", "ConcatFunc"), ("distinct", "DistinctFunc"), ("element", "ElementFunc"), ("flatten", "FlattenFunc"),
+  ("index", "IndexFunc"), ("keys", "KeysFunc"), ("lookup", "LookupFunc"), ("merge", "MergeFunc"),
+  ("reverse", "ReverseListFunc"), ("slice", "SliceFunc"), ("sort", "SortFunc"), ("split", "SplitFunc"),
+  ("values", "ValuesFunc"), ("zipmap", "ZipmapFunc")]
 
 end Pandora.Spec.C16
